@@ -58,6 +58,7 @@ class ModelInner:
         self.frozen = False
         self.pre_mutation = None  # hook(kind, args) called before each primitive (C16 interference)
         self.fail_paths = {}  # path -> exception to raise when a file is *placed* there (fault injection)
+        self.hook_on_reads = False  # also give the interference hook a turn before every query (stat/exists/read/list) of the code
         self.two_step_writes = False  # model create/truncate and content write as two crash points (C15)
         self.reverse_listing = False  # directory listing order is unspecified: harnesses may flip it
 
@@ -102,6 +103,15 @@ class ModelInner:
         self.log.append((kind, *args))
         return True
 
+    def _op(self, kind="read"):
+        """a query is about to run: another writer may act first (only when hook_on_reads is set, C16)"""
+        if self.hook_on_reads and self.pre_mutation is not None and not self.frozen:
+            hook, self.pre_mutation = self.pre_mutation, None
+            try:
+                hook(kind, ())
+            finally:
+                self.pre_mutation = hook
+
     def _tmp(self, parent):
         self.tmpn += 1
         return posixpath.join(parent, f".mtmp{self.tmpn}.tmp")
@@ -118,6 +128,7 @@ class ModelInner:
 
     # ------------------------------------------------------------------ queries
     def lexists(self, p, **kw):
+        self._op()
         p = self._n(p)
         return p in self.files or p in self.links or p in self.dirs
 
@@ -125,21 +136,26 @@ class ModelInner:
         return self.lexists(p)
 
     def isfile(self, p):
+        self._op()
         return self._resolve(p) in self.files
 
     def isdir(self, p):
+        self._op()
         return self._resolve(p) in self.dirs
 
     def islink(self, p):
+        self._op()
         return self._n(p) in self.links
 
     def is_hardlink(self, p):
+        self._op()
         q = self._resolve(p)
         if q not in self.files:
             raise FileNotFoundError(errno.ENOENT, "No such file or directory", p)
         return self.files[q].nlink > 1
 
     def stat(self, p, follow=True):
+        self._op()
         p0 = self._n(p)
         link = p0 in self.links
         if link and not follow:
@@ -175,6 +191,7 @@ class ModelInner:
         return sorted(out, reverse=self.reverse_listing)
 
     def ls(self, p, detail=False, **kw):
+        self._op()
         p = self._resolve(p)
         if p not in self.dirs:
             if p in self.files:
@@ -384,6 +401,7 @@ class ModelInner:
         self._p_create(p, data, mode)
 
     def read(self, p):
+        self._op()
         q = self._resolve(p)
         if q not in self.files:
             if q in self.dirs:
@@ -661,6 +679,7 @@ class ModelOS:
 
             @staticmethod
             def exists(p):
+                i._op()
                 q = i._resolve(p)
                 return q in i.files or q in i.dirs
 
